@@ -191,6 +191,10 @@ structure Cfg where
       (the unmodified source does not: finding F6; regenerated from the source, see
       `Restic.Gen.ensureSize_calls`) -/
   sparseTruncFirst : Bool
+  /-- does `verifyFile` discard the state of a file with several hard links that needs to be
+      restored? (`createFile` replaces such a file by an empty one; the unmodified source keeps
+      the state and loses the matching blobs; regenerated from `Restic.Gen.verifyFile_calls`) -/
+  hardlinkDropsState : Bool
 
 inductive CErr where
   | dirNotEmpty
@@ -263,6 +267,16 @@ def restoreContent (cfg : Cfg) (zeroChunk : ID) (t : Target) (node : FNode ID)
     | .error e => .error e
     | .ok f0 => .ok (order.foldl (pwrite sparse) f0)
 
+/-- link count `Stat` reports for the opened file -/
+def Target.links : Target → Nat
+  | .regular _ _ _ l _ => l
+  | _ => 1
+
+/-- the tail of `verifyFile` (not reachable with `failFast`, where any mismatch is an error):
+    a file with several hard links that needs to be restored gets no state -/
+def dropIfHardlinked (cfg : Cfg) (t : Target) (s : FileState) : Option FileState :=
+  if cfg.hardlinkDropsState && needsRestore (some s) && decide (t.links > 1) then none else some s
+
 inductive Outcome where
   | untouched                  -- skipped by the overwrite mode, not tracked
   | metadataOnly               -- content verified as identical, tracked
@@ -274,7 +288,7 @@ def restoreFile (hash : Bytes → ID) (cfg : Cfg) (zeroChunk : ID) (ow : Overwri
     (node : FNode ID) (order : Option FileState → List (Write ID)) : Outcome :=
   if !shouldOverwrite ow node t then .untouched else
   let state := match verifyFile hash t node false (ow == .ifChanged) with
-    | .ok s => some s
+    | .ok s => dropIfHardlinked cfg t s
     | .error _ => none
   if !needsRestore state then .metadataOnly else
   match restoreContent cfg zeroChunk t node state (order state) with
